@@ -195,6 +195,10 @@ DICT_CONVS = {'int': ['DoubleInt', 'IncInt'], 'str': ['UpperStr', 'TagStr'], 'fl
 
 
 def _dict_entries(ro, knobs):
+    if ro.random() < 0.35:
+        # a *list* of handler functions the application keeps, passes again and again and edits in place
+        pool = list(knobs['hpair']) if knobs.get('hpair') else ['dbl_int', 'inc_int', 'upper_str', 'tag_str', 'neg_float', 'list_int']
+        return ['list'] + ro.sample(pool, ro.choice([1, 2]) if len(pool) > 1 else 1)
     tys = ro.sample(['int', 'str', 'float'], ro.choice([1, 1, 2]))
     if knobs.get('hpair'):
         tys = ['int' if 'int' in knobs['hpair'][0] else 'str']
@@ -941,6 +945,8 @@ class Exec:
         return tg.build_handlers(spec, self.world.faulty)
 
     def _dict_from_entries(self, entries):
+        if entries and entries[0] == 'list':
+            return [tg.HANDLERS[n] for n in entries[1:]]
         convs = tg._custom_converters()
         return {tg.SCALARS[ty]: convs[cn] for (ty, cn) in entries}
 
@@ -954,8 +960,15 @@ class Exec:
         if d is None:
             self.trace.add('skip', i)
             return
-        d.clear()
-        d.update(self._dict_from_entries(op['entries']))
+        new = self._dict_from_entries(op['entries'])
+        if type(new) is not type(d):
+            self.trace.add('skip', i, 'container kind')
+            return
+        if isinstance(d, list):
+            d[:] = new
+        else:
+            d.clear()
+            d.update(new)
         self.hdict_entries[op['name']] = op['entries']
         self.count('handler_dict_mutated')
         self.trace.add('mutdict', i, op['name'])
